@@ -701,6 +701,14 @@ func (e *Enc) evalCall(env *Env, n *ast.CallExpr) TV {
 	case "sameArray":
 		a, b := e.asSl(env, e.eval(env, n.Args[0])), e.asSl(env, e.eval(env, n.Args[1]))
 		return TV{V: Sc{eq(a.Arr, b.Arr)}, Ty: boolT}
+	case "arrayOf", "offsetOf":
+		// identity of a slice's backing array / its offset in it (as numbers, so
+		// that ghost variables can remember a slice seen earlier)
+		a := e.asSl(env, e.eval(env, n.Args[0]))
+		if name == "arrayOf" {
+			return TV{V: Sc{a.Arr}, Ty: types.Typ[types.Uint64]}
+		}
+		return TV{V: Sc{a.Off}, Ty: types.Typ[types.Uint64]}
 	case "disjoint":
 		a, b := e.asSl(env, e.eval(env, n.Args[0])), e.asSl(env, e.eval(env, n.Args[1]))
 		// different backing arrays (or one of them nil)
@@ -882,10 +890,25 @@ func (e *Enc) opaqueSpec(env *Env, sf *SpecFunc, c *Env) TV {
 func (e *Enc) opaqueScalarSpec(env *Env, sf *SpecFunc, c *Env) TV {
 	var args []T
 	for _, p := range sf.Params {
+		if c.names[p].Const == nil {
+			// a byte slice argument: (array contents, offset, length)
+			var sl Sl
+			isSl := false
+			switch x := c.names[p].V.(type) {
+			case Sl:
+				sl, isSl = x, true
+			case Str:
+				sl, isSl = Sl{Arr: x.Arr, Off: x.Off, Len: x.Len, Cap: x.Len}, true
+			}
+			if isSl {
+				args = append(args, e.constFor("spa", sel(e.byteMem(env.st), sl.Arr)), sl.Off, sl.Len)
+				continue
+			}
+		}
 		v, _ := e.materialize(c, c.names[p], types.Typ[types.Uint64])
 		sc, ok := v.(Sc)
 		if !ok {
-			e.evalFail(env, "opaque spec %s needs scalar arguments", sf.Name)
+			e.evalFail(env, "opaque spec %s needs scalar or byte-slice arguments", sf.Name)
 		}
 		args = append(args, sc.T)
 	}
